@@ -25,19 +25,39 @@ def typCloseConnectionResponse : Nat := 4
 
 /-! ## scripts -/
 
-/-- what a `MessageHandler` does with the payload reader it is given: read (up to) `k` bytes and return, or read
-(up to) `k` bytes and panic -/
+/-- what a `MessageHandler` does with the message it is given: read (up to) `k` bytes from the payload reader and
+return; read (up to) `k` bytes and panic; or obtain the whole payload the way the device service's handlers do,
+`msg.UnmarshalTo(v)` = `msg.data()` + decode (`viaData`) -/
 inductive Beh where
   | reads (k : Nat)
   | panics (k : Nat)
+  | viaData
 deriving DecidableEq, Repr, Inhabited
 
 def Beh.want : Beh → Nat
   | .reads k => k
   | .panics k => k
+  | .viaData => 0
 def Beh.isPanic : Beh → Bool
   | .reads _ => false
   | .panics _ => true
+  | .viaData => false
+
+/-- how many payload bytes the handler consumes of a message that declares `n` bytes of which `avail` can be read.
+`Message.data()` refuses a declared size over the limit before touching the reader; otherwise `io.ReadFull` takes
+everything there is (and fails if that is less than declared) -/
+def Beh.took (b : Beh) (n avail : Nat) : Nat :=
+  match b with
+  | .reads k => min k avail
+  | .panics k => min k avail
+  | .viaData => if n ≤ MaxBuf then avail else 0
+
+/-- the sizes the handler's own calls pass to `make`: `data()` on a payload that is still on the connection allocates
+the declared size — only if it is within the limit; on a buffered payload it returns the buffer -/
+def Beh.allocs (b : Beh) (streamed : Bool) (n : Nat) : List Nat :=
+  match b with
+  | .viaData => if streamed && decide (n ≤ MaxBuf) then [n] else []
+  | _ => []
 
 /-- the client's handler table: the message types with a registered handler (`NewClient` always registers KeepAlive)
 and whether a default handler was installed -/
@@ -141,7 +161,7 @@ def dispatch (cfg : Cfg) (i : Nat) (h : Header) (awaited : Bool) (beh : Beh) (s 
       match hp with
       | none => { deliveries := [dc], allocs := [n], rest := s.drop n }
       | some p =>
-        { deliveries := [dc, ⟨i, p, h, some buf, min beh.want n, beh.isPanic⟩], allocs := [n], rest := s.drop n,
+        { deliveries := [dc, ⟨i, p, h, some buf, beh.took n n, beh.isPanic⟩], allocs := n :: beh.allocs false n, rest := s.drop n,
           crashed := guarded (callRaw beh) == .panicked }
   else
     let dcs : List Delivery := if awaited then [⟨i, .caller, h, none, 0, false⟩] else []
@@ -149,8 +169,9 @@ def dispatch (cfg : Cfg) (i : Nat) (h : Header) (awaited : Bool) (beh : Beh) (s 
     match hp with
     | none => { deliveries := dcs, rest := s.drop n }
     | some p =>
-      let k := min beh.want avail.length
+      let k := beh.took n avail.length
       { deliveries := dcs ++ [⟨i, p, h, some avail, k, beh.isPanic⟩],
+        allocs := beh.allocs true n,
         rest := (s.drop k).drop (n - k),
         crashed := guarded (callRaw beh) == .panicked }
 
@@ -259,7 +280,16 @@ def expectedDeliveries (cfg : Cfg) (i : Nat) (f : WFrame) (awaited : Bool) (beh 
         if f.payload.length ≤ MaxBuf then f.payload.length else 0, false⟩]
    else []) ++
   (match handlerParty cfg f.typ with
-   | some p => [⟨i, p, f.hdr, some f.payload, min beh.want f.payload.length, beh.isPanic⟩]
+   | some p => [⟨i, p, f.hdr, some f.payload, beh.took f.payload.length f.payload.length, beh.isPanic⟩]
+   | none => [])
+
+/-- the sizes passed to `make` for one complete frame: the reply buffer, and what a handler that calls `data()` on a
+streamed payload allocates -/
+def frameAllocs (cfg : Cfg) (f : WFrame) (awaited : Bool) (beh : Beh) : List Nat :=
+  let buffered := awaited && decide (f.payload.length ≤ MaxBuf)
+  (if buffered then [f.payload.length] else []) ++
+  (match handlerParty cfg f.typ with
+   | some _ => beh.allocs (!buffered) f.payload.length
    | none => [])
 
 def specRun (cfg : Cfg) (env : Nat → Step) : Nat → Nat → List Nat → Bool → List WFrame → Result
@@ -273,6 +303,6 @@ def specRun (cfg : Cfg) (env : Nat → Step) : Nat → Nat → List Nat → Bool
     { r with headers := (off, f.hdr) :: r.headers,
              deliveries := expectedDeliveries cfg i f awaited st.beh ++ r.deliveries,
              unhandled := (if !awaited && (handlerParty cfg f.typ).isNone then [i] else []) ++ r.unhandled,
-             allocs := Gen.HeaderSz :: (if awaited && decide (f.payload.length ≤ MaxBuf) then [f.payload.length] else []) ++ r.allocs }
+             allocs := Gen.HeaderSz :: frameAllocs cfg f awaited st.beh ++ r.allocs }
 
 end LLRP.ReadSide
